@@ -149,18 +149,19 @@ state and context, on success and on failure:
 
 The theorem covers the opt-out-free fragment `NodeOK`: no `safe` filter, no `autoescape off`,
 no Go function in the context, and — named limits of this proof — no `filter` tag (whose
-parameters are written raw: known finding D10) and no lazily computed include name (`spaceless`
-is inside: it only deletes whitespace, `Clean.thin`).  `L` is any predicate the literal text of the templates involved satisfies. -/
+parameters are written raw: known finding D10).  `spaceless` is inside (it only deletes whitespace,
+`Clean.thin`), and so are lazily computed include names: the template they name is compiled while
+executing, from what the loaders hold, which `SetupOK` requires to be opt-out-free sources.  `L` is any predicate the literal text of the templates involved satisfies. -/
 
 section interpreter
 variable (T : LexTables) (cfg : SetCfg) (g : Env) (L : Bytes → Prop)
 
 /-- **Execution keeps the autoescape invariant**, whatever the template does and whether or not it
     fails half-way (the unbuffered entry point is the one that shows partial output). -/
-theorem execution_keeps_autoescape_invariant (hg : EnvOK L g) (fuel ti : Nat) (ctx : Env) (hctx : EnvOK L ctx)
+theorem execution_keeps_autoescape_invariant (hS : SetupOK T cfg L) (hg : EnvOK L g) (fuel ti : Nat) (ctx : Env) (hctx : EnvOK L ctx)
     (σ : ES) (hσ : Inv L σ) :
     Inv L (stateAfter ((executeTplUnbuffered T cfg g fuel ti ctx).run σ)) := by
-  have h := (allSat (T := T) (cfg := cfg) hg fuel).executeTplUnbuffered ti ctx hctx σ hσ
+  have h := (allSat (T := T) (cfg := cfg) hS hg fuel).executeTplUnbuffered ti ctx hctx σ hσ
   simp only [EStateM.run]
   cases hr : executeTplUnbuffered T cfg g fuel ti ctx σ with
   | ok a σ' => rw [hr] at h; exact h.1
@@ -176,14 +177,14 @@ theorem initial_state_ok (cs : CState) (hw : WorldOK L cs) : Inv L { cs := cs } 
     value that is not text — in each case possibly with some whitespace bytes deleted (`c` is a
     subsequence of the base chunk `c'` with the same non-whitespace bytes: what `spaceless` does).
     No context string is among them. -/
-theorem output_is_clean (hg : EnvOK L g) (fuel ti : Nat) (ctx : Env) (hctx : EnvOK L ctx) (cs : CState) (hw : WorldOK L cs) :
+theorem output_is_clean (hS : SetupOK T cfg L) (hg : EnvOK L g) (fuel ti : Nat) (ctx : Env) (hctx : EnvOK L ctx) (cs : CState) (hw : WorldOK L cs) :
     ∃ chunks : List Bytes,
       (stateAfter ((executeTplUnbuffered T cfg g fuel ti ctx).run { cs := cs })).out = chunks.flatten ∧
       ∀ c ∈ chunks, ∃ c', c.Sublist c' ∧ nonWs c = nonWs c' ∧
         (L c' ∨
          (∃ x, c' = escapeHtml x ∧ (∀ b ∈ c, b ∉ C17.specials)) ∨
          (∃ v : Val, v.isString = false ∧ v.isStringer = false ∧ c' = v.toS)) := by
-  obtain ⟨chunks, he, hc⟩ := (execution_keeps_autoescape_invariant T cfg g L hg fuel ti ctx hctx _ (initial_state_ok L cs hw)).hout
+  obtain ⟨chunks, he, hc⟩ := (execution_keeps_autoescape_invariant T cfg g L hS hg fuel ti ctx hctx _ (initial_state_ok L cs hw)).hout
   refine ⟨chunks, he, fun c hcm => ?_⟩
   obtain ⟨c', hs, hn, hk⟩ := (hc c hcm).base
   refine ⟨c', hs, hn, ?_⟩
@@ -193,9 +194,9 @@ theorem output_is_clean (hg : EnvOK L g) (fuel ti : Nat) (ctx : Env) (hctx : Env
   · exact Or.inr (Or.inr h)
 
 /-- the same for a single node and for a single expression, in any state the invariant holds in -/
-theorem node_keeps_autoescape_invariant (hg : EnvOK L g) (fuel : Nat) (n : Node) (hn : NodeOK L n) (σ : ES) (hσ : Inv L σ) :
+theorem node_keeps_autoescape_invariant (hS : SetupOK T cfg L) (hg : EnvOK L g) (fuel : Nat) (n : Node) (hn : NodeOK L n) (σ : ES) (hσ : Inv L σ) :
     Inv L (stateAfter ((execNode T cfg g fuel n).run σ)) := by
-  have h := (allSat (T := T) (cfg := cfg) hg fuel).execNode n hn σ hσ
+  have h := (allSat (T := T) (cfg := cfg) hS hg fuel).execNode n hn σ hσ
   simp only [EStateM.run]
   cases hr : execNode T cfg g fuel n σ with
   | ok a σ' => rw [hr] at h; exact h.1
@@ -203,9 +204,9 @@ theorem node_keeps_autoescape_invariant (hg : EnvOK L g) (fuel : Nat) (n : Node)
 
 /-- **a value marked safe is never a context string**: whatever an opt-out-free expression
     evaluates to, if it is marked safe it is clean text, a list literal or a byte of clean text -/
-theorem safe_values_are_clean (hg : EnvOK L g) (fuel : Nat) (e : Expr) (he : ExprOK e) (σ σ' : ES) (hσ : Inv L σ) (v : V)
+theorem safe_values_are_clean (hS : SetupOK T cfg L) (hg : EnvOK L g) (fuel : Nat) (e : Expr) (he : ExprOK e) (σ σ' : ES) (hσ : Inv L σ) (v : V)
     (h : (eval T cfg g fuel e).run σ = .ok v σ') : v.safe = true → SafeShape L v.v := by
-  have h0 := (allSat (T := T) (cfg := cfg) hg fuel).eval e he σ hσ
+  have h0 := (allSat (T := T) (cfg := cfg) hS hg fuel).eval e he σ hσ
   simp only [EStateM.run] at h
   rw [h] at h0
   exact h0.2.2
@@ -226,6 +227,50 @@ theorem parsed_expression_is_optout_free (cfg : SetCfg) (toks : List Tok) (fuel 
       (fun n hn => by obtain ⟨_, _, t, ht, hty, hv⟩ := hn; exact hv ▸ hno t ht hty) fuel).parseExpression _
     (Good.ofList toks) _ h).1
 
+
+/-! ### from the source to the fragment: whole templates
+
+`Lemmas/ParseDocAll.lean` carries the same link through the document parser (tags, bodies, blocks,
+macros, and the templates that `extends` / `include` / `import` / `ssi` pull in while compiling):
+a source none of whose identifier tokens is `safe`, `filter` or `off`, compiled in a set whose
+loaders hold only such sources (`SetupOK`), yields opt-out-free trees only. -/
+
+/-- **Compiling opt-out-free sources yields opt-out-free templates** — the new template, and every
+    template and macro its compilation added to the world. -/
+theorem compiled_templates_are_optout_free (hS : SetupOK T cfg L) (fuel : Nat) (cs cs' : CState) (name src : Bytes)
+    (isString : Bool) (ti : Nat) (hw : WorldOK L cs) (hsrc : SrcOK T L src)
+    (h : compileTpl T cfg fuel cs name isString src = .ok (ti, cs')) : WorldOK L cs' :=
+  (allDoc hS fuel).compileTpl cs name isString src hw hsrc _ h
+
+/-- **Autoescape, from the source text to the output bytes**: compile a source whose identifier
+    tokens avoid `safe`, `filter` and `off` (in a set whose loaders hold only such sources), execute
+    it with any context that holds no Go function and no value pre-marked safe with raw text — what
+    comes out, also before a failure, is a concatenation of template text, `escape` output and the
+    engine's own text for values that are not text (each possibly thinned of whitespace by
+    `spaceless`).  Lexer, parser and interpreter of the model, end to end; every fuel. -/
+theorem autoescape_from_source_to_output (hS : SetupOK T cfg L) (hg : EnvOK L g) (f1 f2 : Nat) (name src : Bytes)
+    (isString : Bool) (ti : Nat) (cs : CState) (hsrc : SrcOK T L src)
+    (hc : compileTpl T cfg f1 {} name isString src = .ok (ti, cs)) (ctx : Env) (hctx : EnvOK L ctx) :
+    ∃ chunks : List Bytes,
+      (stateAfter ((executeTplUnbuffered T cfg g f2 ti ctx).run { cs := cs })).out = chunks.flatten ∧
+      ∀ c ∈ chunks, ∃ c', c.Sublist c' ∧ nonWs c = nonWs c' ∧
+        (L c' ∨
+         (∃ x, c' = escapeHtml x ∧ (∀ b ∈ c, b ∉ C17.specials)) ∨
+         (∃ v : Val, v.isString = false ∧ v.isStringer = false ∧ c' = v.toS)) :=
+  output_is_clean T cfg g L hS hg f2 ti ctx hctx cs
+    (compiled_templates_are_optout_free T cfg L hS f1 {} cs name src isString ti worldOK_empty hsrc hc)
+
+
+/-- the premises are satisfiable: a set with an empty loader, any text as template text … -/
+example (T : LexTables) : SetupOK T { regTags := [], regFilters := [] } (fun _ => True) :=
+  ⟨(by intro l hl kv hkv; simp at hl; subst hl; cases hkv), (by intro l hl kv hkv; simp at hl; subst hl; cases hkv), fun _ _ => trivial⟩
+
+/-- … and the tokens of `<p>{{ name|upper }}</p>` are those of an opt-out-free source -/
+example : ToksOK (fun _ => True)
+    [⟨.html, b!"<p>", 1, 1, false, 0⟩, ⟨.sym, b!"{{", 1, 4, false, 3⟩, ⟨.ident, b!"name", 1, 7, false, 6⟩, ⟨.sym, b!"|", 1, 11, false, 10⟩,
+     ⟨.ident, b!"upper", 1, 12, false, 11⟩, ⟨.sym, b!"}}", 1, 18, false, 17⟩, ⟨.html, b!"</p>", 1, 20, false, 19⟩] :=
+  ⟨(by intro t ht _; simp only [List.mem_cons, List.not_mem_nil, or_false] at ht; rcases ht with h | h | h | h | h | h | h <;> subst h <;> decide),
+   fun _ _ _ _ _ _ _ _ _ => trivial⟩
 
 end interpreter
 
